@@ -217,6 +217,8 @@ pub fn case(s: &str, l: &mut Local) {
             l.violation(site, || (format!("{}({:?}) expected {} got {}", name, s, show_want(&cl.want), got.show()), json!({"s": s})));
         }
     }
+    #[cfg(feature = "hidden-parse")]
+    {
     // the core parser: Ok((c, e)) must denote the literal's value; grammar-invalid strings must be Err
     let got = catch(|| fpdec_core::str_to_dec(s));
     l.evals += 1;
@@ -251,6 +253,7 @@ pub fn case(s: &str, l: &mut Local) {
     if let Some(kind) = bad {
         let site = format!("fpdec_core::str_to_dec | {} | {}", path_class(&cl, s), kind);
         l.violation(site, || (format!("str_to_dec({:?}) got {:?}", s, got), json!({"s": s})));
+    }
     }
 }
 
@@ -445,7 +448,7 @@ pub fn run(tier: Tier) -> i32 {
     if th {
         let engine = std::env::var("VERIF_ENGINE").unwrap_or_else(|_| "/verif/engine".into());
         let tdir = format!("{}/target/c06miri", std::env::var("VERIF_OUT").unwrap_or_else(|_| "/verif".into()));
-        let out = std::process::Command::new("cargo").args(["+nightly", "miri", "run", "--offline", "--", "3"]).current_dir(format!("{}/c06miri", engine))
+        let out = std::process::Command::new("cargo").args(if cfg!(feature = "hidden-parse") { vec!["+nightly", "miri", "run", "--offline", "--", "3"] } else { vec!["+nightly", "miri", "run", "--offline", "--no-default-features", "--", "3"] }).current_dir(format!("{}/c06miri", engine))
             .env("CARGO_TARGET_DIR", &tdir).env("CARGO_NET_OFFLINE", "true").env_remove("RUSTFLAGS").output();
         match out {
             Err(e) => guard_machinery = Some(format!("cannot run Miri: {}", e)),
@@ -481,6 +484,7 @@ pub fn run(tier: Tier) -> i32 {
             "reference: hand-written recogniser of the grammar; value from 512-bit integer arithmetic".into(),
             "tolerances (property text silent): error kinds other than Empty not compared; more than 18 fractional digits only because of trailing zeros, and all-zero digits with net exponent beyond +-38/18: Ok(right value) or Err".into(),
             "the memory clause (no read outside the string) is monitored by guard pages (both tiers) and by Miri on a reduced enumeration (thorough tier)".into(),
+            if cfg!(feature = "hidden-parse") { "the #[doc(hidden)] core parser fpdec_core::str_to_dec is driven as a fourth entry point".to_string() } else { "engine built WITHOUT feature hidden-parse (fpdec_core::str_to_dec changed its signature): only the three public entry points named by the property are driven".to_string() },
         ],
         class_name: &class_name,
         required,
